@@ -505,7 +505,7 @@ func runScenario(sc scenario, stallSite string, stallIdx int) schedResult {
 	} else {
 		res.SLogs = map[string][]string{}
 		for _, e := range evs {
-			if e.client == "" {
+			if e.client == "" || e.kind == "removed" {
 				continue
 			}
 			if e.id != "" {
